@@ -11,6 +11,54 @@ TITLE = "publications file: strict structure, exact signed range, trust only via
 
 
 def run(prog, chk):
+    der_whole_value(prog, chk)
+    _run(prog, chk)
+
+
+def der_whole_value(prog, chk):
+    """The PKI signature record's value must be the DER object and nothing else: octets after it lie outside the signed range and
+    are covered by nothing, so they could be changed without verification failing.  KSI_PKISignature_new is evaluated for
+    (value length L, length D the DER decoder consumes): an object is handed out exactly when the decoder succeeds and D == L."""
+    from ksirules.bufinterp import BufInterp, Off
+    chk.rule("C18.der", "PKI signature record: the DER object is the whole value (decoder consumed length x value length table)", floor=8)
+    fn = prog.fn("KSI_PKISignature_new", "pkitruststore_openssl.c")
+    cp, rp, lp, sp = [q["n"] for q in fn.params]
+    for L, D in [(1, 1), (40, 40), (2000, 2000), (40, 39), (40, 37), (40, 1), (2000, 1997), (65535, 65535), (65535, 65534), (40, None), (1, None)]:
+        def d2i(I, p, node, args, D=D):
+            a = strip(node["a"][1])
+            while isinstance(a, dict) and a.get("k") == "cast":
+                a = strip(a["e"])
+            key = lvalue_key(a["e"], I.fn) if isinstance(a, dict) and a.get("k") == "un" and a["op"] == "&" else None
+            if key is None:
+                return TOP
+            if D is None:
+                return 0
+            # the argument object counts as modified once the call is reached: take the value it had before
+            st = p.stores(key)
+            cur = I.as_off(st[-1][2]) if st else Off("RAW", 0)
+            if cur is None:
+                return TOP
+            I.write(p, key, Off(cur.base, cur.off + D))
+            return Ptr("P7")
+        ov = {"d2i_PKCS7": d2i, "KSI_malloc": lambda I, p, n, a: Ptr("NEW"), "KSI_calloc": lambda I, p, n, a: Ptr("NEW"), "KSI_PKISignature_free": lambda I, p, n, a: TOP, "PKCS7_free": lambda I, p, n, a: TOP}
+        inputs = {cp: Ptr("ctx"), rp: Ptr("RAW"), lp: L, sp: Ptr("OUT")}
+        I = BufInterp(fn, {"RAW": L}, inputs=inputs, call_model=succeed_model(prog, ov), on_unknown="stop", prog=prog)
+        paths = I.run()
+        chk.paths += len(paths)
+        inst = "PKISignature_new[value %d octets, decoder %s]" % (L, "fails" if D is None else "consumes %d" % D)
+        if len(paths) != 1 or paths[0].undetermined:
+            raise AnalysisBroken("KSI_PKISignature_new: evaluation not determined for %s: %s" % (inst, [q.undetermined[:1] for q in paths]))
+        q = paths[0]
+        out = [x[2] for x in q.stores("OUT")] + [x[2] for x in q.stores("*" + sp)]
+        handed = any(v not in (0, None) for v in out)
+        want = D is not None and D == L
+        ok = (q.ret == 0 and handed) if want else (q.ret not in (0, TOP) and not handed)
+        chk.ob("C18.der", inst, ok, "expected %s; source: status %s, object handed out: %s"
+               % ("an object and KSI_OK" if want else "an error and no object", hex(q.ret) if isinstance(q.ret, int) else q.ret, handed),
+               loc=fn.loc(), fn=fn, nontrivial=(D is not None and D != L))
+
+
+def _run(prog, chk):
     chk.explanation = (
         "(R5) the publications file template is header (mandatory), certificate records*, publication records*, signature (mandatory), all "
         "in fixed order. (R1) the magic is checked before anything is built. (R6) generateNextTlv: an element after the signature is "
